@@ -200,7 +200,7 @@ def run(ctx):
         amp[0, 0] = amp[-1, -1] = 1
         opd = np.array([[rng.randrange(N) for _ in range(n_)] for _ in range(m_)])
         sh = (rng.randint(1, max(1, Kr // os_)), rng.randint(1, max(1, Kc // os_)))
-        cases.append({'N': N, 'wf': ox.wf(lam), 'dir': 'p2i-fft',
+        cases.append({'N': N, 'wf': ox.wf(lam), 'dir': 'p2i-fft', 'thm': 'fold',
                       'steps': [ox.plane('Pupil', amp=amp, opd=opd, px=dx, z=z), ox.fft(du, sh, os_)]})
     for i, c in enumerate(cases):
         c['id'] = i
